@@ -765,6 +765,17 @@ func (s *scanner) ReadStreamData(dict Dict) (stm *Stream, err error) {
 		}
 	}()
 
+	// Streams can only be read from scanners which are backed by a file:
+	// object streams and in-memory scanners cannot contain streams.  Check
+	// this before resolving /Length, so that a stream dictionary inside an
+	// object stream can never trigger reading other objects (and recurse).
+	origReader := s.fileReader
+	if origReader == nil {
+		return nil, &MalformedFileError{
+			Err: errors.New("cannot read stream data"),
+		}
+	}
+
 	// /Length is required, but real-world PDFs (and fuzz mutations) omit it,
 	// give an indirect length that cannot be resolved, or give a plainly wrong
 	// value.  Resolve a candidate here; a missing or unusable one is treated as
@@ -799,12 +810,6 @@ func (s *scanner) ReadStreamData(dict Dict) (stm *Stream, err error) {
 		}
 	}
 
-	origReader := s.fileReader
-	if origReader == nil {
-		return nil, &MalformedFileError{
-			Err: errors.New("cannot read stream data"),
-		}
-	}
 	start := s.CurrentPos()
 
 	var crypt *filterCrypt
